@@ -70,6 +70,12 @@ def handle (j : Json) : IO Unit := do
     let spec := if n == 0 then counts == [((-1 : Int), total)] else
       counts.length == n && counts.all (fun (i, c) => ids.contains i.toNat && i ≥ 0 && c * n == total)
     emit case (counts == want) spec s!"rrconc.n{n}" (if spec then "" else "rr-concurrent-unfair") (if spec then "" else s!"counts {counts}") (toJson want)
+  | "lcconc" =>
+    -- concurrent readers; the judged selections are sequential with the Increment that precedes them, so the endpoint
+    -- with the open connection has strictly more in flight than the others and must not be picked (C06_lc_minimal)
+    let wrong := jnat (jget impl "wrong")
+    emit case (wrong == 0) (wrong == 0) s!"lcconc.n{jnat (jget j "n")}" (if wrong == 0 then "" else "lc-not-minimal-under-concurrent-readers")
+      (if wrong == 0 then "" else s!"{wrong} of {jnat (jget j "rounds")} selections (first in round {jint (jget impl "first")}) picked the endpoint that had just been given a connection while {jnat (jget j "readers")} goroutines were calling Select")
   | "lc" =>
     let eps := parseEps (jget j "eps")
     let ops := (jarr (jget j "ops")).map (fun o => (jstr (jget o "op"), jnat (jget o "id")))
